@@ -572,6 +572,21 @@ func genCases(o *lib.Opts) {
 		}
 		em.Count("via:" + via)
 	}
+	// 2b. histories in which the underlying buffer has grown large (one write beyond 64 KiB, 1 MiB in the
+	// thorough tier) before Close / Reset / further use: whatever the transport does with a big buffer, it must
+	// still be the buffer (seeded change C19_w6_1: Close swapped a grown buffer for a 4096-byte zero-filled one)
+	hugeSizes := []int{65537, 70000, 131073}
+	if o.Tier == "thorough" {
+		hugeSizes = append(hugeSizes, 1<<20+1)
+	}
+	for i, hs := range hugeSizes {
+		via := []string{"buffer", "default"}[i%2]
+		for _, mid := range []string{"close", "reset", "rT:10"} {
+			ops := "wT:" + lib.Hex(r.Bytes(hs)) + "," + mid + ",wB:0102,rT:5,close,wT:03,rB:4"
+			emit("apx", "seq", via, "-", ops)
+			em.Count("seq:huge-buffer")
+		}
+	}
 	// 3. generic transport: no ReadableLen, and ReadableLen values <= 0, 1, large
 	emit("apx", "drem", "none")
 	for _, v := range []int64{0, -1, 1, 2, 7, math.MinInt64, math.MinInt64 + 1, math.MaxInt64, math.MaxInt64 - 1,
